@@ -43,7 +43,7 @@ CHEAP_OPS = (OP_ADD, OP_SUB, OP_CHK, OP_RT)
 BUDGET_MS = {"quick": 400.0, "thorough": 500.0}
 MIN_MULT_CASES = 4
 LOAD_LIMIT_MS = {"quick": 6000.0, "thorough": 20000.0}
-CRASH_LIMIT = 3           # crashes per (job, build, entry point, behaviour class) before the class is no longer fed
+CRASH_LIMIT = 4           # crashes per (job, build, entry point, key marks) before such cases are no longer fed
 
 
 # ---------------------------------------------------------------------------
@@ -339,6 +339,18 @@ def exp_obs_point(exp):
 # ---------------------------------------------------------------------------
 # scalar classes
 # ---------------------------------------------------------------------------
+F_KBITS_GT_M, F_ZERO_SCALAR = 1, 2
+
+
+def case_flags(op, k1, k2, m):
+    f = 0
+    if op in (OP_UNK, OP_BP, OP_TWIN, OP_TWINBP) and max(k1.bit_length(), k2.bit_length()) > m:
+        f |= F_KBITS_GT_M
+    if op in (OP_TWIN, OP_TWINBP) and (k1 == 0 or k2 == 0):
+        f |= F_ZERO_SCALAR
+    return f
+
+
 def sclass(k, n, m):
     if k <= 3:
         return "k=%d" % k
@@ -462,7 +474,7 @@ def gen_builtin(job):
         body = pk_body(cspec, nb, alias, A, B, k1, k2)
         if op in CHEAP_OPS:
             pri = PRI_CHEAP
-        cases.append((op, body, exp, (rel, scl), pri, 0))
+        cases.append((op, body, exp, (rel, scl), pri, 0, case_flags(op, k1, k2, m)))
 
     # ---- add / sub / doubling --------------------------------------------------
     P, Q, S = rpt(), rpt(), rpt()
@@ -554,7 +566,7 @@ def gen_builtin(job):
             e = ec.add(c, kG(k1), ec.mul(c, k2 % n, B))
             emit(OP_TWINBP, 0, rep(O), rep(B, S), k1, k2, expo(e), rel, sclass(k1, n, m) + "|" + sclass(k2, n, m),
                  PRI_CORE if j < 1 else PRI_EXT)
-    for _, _, e, _, _, _ in cases:
+    for _, _, e, _, _, _, _ in cases:
         if e[0] == 0 and not ec.on_curve(c, (e[1], e[2])):
             raise common.Inconclusive("oracle produced an off-curve point on %s" % c.name)
     return {"kind": "builtin", "name": c.name, "bits": m, "n_bits": n.bit_length(), "m": m, "cases": cases,
@@ -715,7 +727,7 @@ def gen_syn(job):
 
     def emit(op, m, alias, A, B, k1, k2, exp, rel, scl):
         body = pk_body(specs[m], nbytes(m), alias, A, B, k1, k2)
-        cases.append((op, body, exp, (rel, scl + ("" if m == m0 else "@m>|p|")), PRI_CHEAP, m))
+        cases.append((op, body, exp, (rel, scl + ("" if m == m0 else "@m>|p|")), PRI_CHEAP, m, case_flags(op, k1, k2, m)))
 
     def relclass(i, j):
         if i == 0 and j == 0:
@@ -893,15 +905,13 @@ def _extra_marks(case, group, info):
     bit (scalars longer than m bits), the joint-sparse-form recoding reads the low digit of both scalars
     (zero scalars).  Everything else about the case is in the witness, not in the key."""
     op = case[0]
-    d = decode_body(case[1])
-    m = group["m"] if d["curve"].get("m") is None else d["curve"]["m"]
     s = ""
     pre = "BIN_PRECALC_DBL"
     uses_pre = ((op == OP_BP and info.fxp == pre) or (op == OP_UNK and info.unk == pre) or
                 (op == OP_TWINBP and info.twin == "FXP_UNKPT" and pre in (info.fxp, info.unk)))
-    if uses_pre and max(d["k1_bits"], d["k2_bits"]) > m:
+    if uses_pre and case[6] & F_KBITS_GT_M:
         s += ",kbits>m"
-    if op in (OP_TWIN, OP_TWINBP) and info.twin == "JOINT" and min(d["k1_bits"], d["k2_bits"]) == 0:
+    if op in (OP_TWIN, OP_TWINBP) and info.twin == "JOINT" and case[6] & F_ZERO_SCALAR:
         s += ",zero-scalar"
     return s
 
@@ -1012,13 +1022,17 @@ def select_cases(g, info, cfg_i):
     return [cases[i] for i in keep], None
 
 
-def _run_filtered(exe, cases, junk, dead, counts, part, tag):
-    """Like common.run_cases (same protocol, same crash attribution) but a behaviour class (entry point,
-    operand relation, scalar class) is no longer fed after CRASH_LIMIT crashes in this job and build: every crash restarts the driver, which reloads the curve and its
+def _run_filtered(exe, cases, junk, dead, counts, part, tag, info=None, group=None):
+    """Like common.run_cases (same protocol, same crash attribution) but cases with the same (entry point,
+    key marks) are no longer fed after CRASH_LIMIT crashes in this job (= one curve in one configuration)
+    and build: every crash restarts the driver, which reloads the curve and its
     precomputed table.  Returns a list aligned with cases (None = not run)."""
     import subprocess
     res = [None] * len(cases)
-    todo = [i for i, cs in enumerate(cases) if (cs[0], cs[3]) not in dead]
+    def ck_of(cs):
+        return (cs[0], _extra_marks(cs, group, info))
+
+    todo = [i for i, cs in enumerate(cases) if ck_of(cs) not in dead] if dead else list(range(len(cases)))
     env = common.run_env()
     while todo:
         data = b"".join(common.pack_case(_payload(cases[i], junk)) for i in todo)
@@ -1035,11 +1049,11 @@ def _run_filtered(exe, cases, junk, dead, counts, part, tag):
         ci = todo[len(obs)]
         text = err.decode("utf-8", "replace")
         res[ci] = Crash(common.classify_crash(rc, text), text[-6000:], rc)
-        ck = (cases[ci][0], cases[ci][3])
+        ck = ck_of(cases[ci])
         counts[ck] = counts.get(ck, 0) + 1
         if counts[ck] >= CRASH_LIMIT:
             dead.add(ck)
-        todo = [i for i in todo[len(obs) + 1:] if (cases[i][0], cases[i][3]) not in dead]
+        todo = [i for i in todo[len(obs) + 1:] if ck_of(cases[i]) not in dead]
     skipped = sum(1 for r_ in res if r_ is None)
     if skipped:
         common.part_count(part, "cases_not_fed_after_repeated_crash:" + tag, skipped)
@@ -1052,8 +1066,8 @@ def run_job(job):
     info = _INFOS[cfg["name"]]
     exes = _EXES[cfg["name"]]
     part = common.new_part()
-    dead = {"asu": set(), "plain": set(), "msan": set()}
-    counts = {"asu": {}, "plain": {}, "msan": {}}
+    dead = {"asu": set(), "plain": set(), "plainB": set(), "msan": set()}
+    counts = {"asu": {}, "plain": {}, "plainB": {}, "msan": {}}
     for gid in gids:
         g = _GROUPS[gid]
         cases, note = select_cases(g, info, cfg_i)
@@ -1064,10 +1078,10 @@ def run_job(job):
         if not cases:
             continue
         kind = g["kind"]
-        r1 = _run_filtered(exes["plain"], cases, JUNK_A, dead["plain"], counts["plain"], part, "plain")
-        r2 = _run_filtered(exes["plain"], cases, JUNK_B, dead["plain"], counts["plain"], part, "plain")
-        ra = _run_filtered(exes["asu"], cases, JUNK_A, dead["asu"], counts["asu"], part, "asu") if "asu" in exes else [None] * len(cases)
-        rm = _run_filtered(exes["msan"], cases, JUNK_A, dead["msan"], counts["msan"], part, "msan") if "msan" in exes else [None] * len(cases)
+        r1 = _run_filtered(exes["plain"], cases, JUNK_A, dead["plain"], counts["plain"], part, "plain", info, g)
+        r2 = _run_filtered(exes["plain"], cases, JUNK_B, dead["plainB"], counts["plainB"], part, "plain", info, g)
+        ra = _run_filtered(exes["asu"], cases, JUNK_A, dead["asu"], counts["asu"], part, "asu", info, g) if "asu" in exes else [None] * len(cases)
+        rm = _run_filtered(exes["msan"], cases, JUNK_A, dead["msan"], counts["msan"], part, "msan", info, g) if "msan" in exes else [None] * len(cases)
         for ci, cs in enumerate(cases):
             op = cs[0]
             fam = info.family(op)
